@@ -29,6 +29,10 @@ type c05ent struct {
 	ro     bool
 	source string
 	flagFS bool // source lives on a nosuid,nodev,noexec file system
+	// a read-only file bind nested in a writable directory bind ("coverfile"): what an earlier tenant of the reused
+	// host directory may have left under the target's name
+	planted string // "", "link" (a link to a decoy file next to it)
+	parent  string // source directory of the writable bind the cover sits in
 }
 
 var c05FlagFS string
@@ -43,6 +47,20 @@ func c05Init(dir, tier string) error {
 		return fmt.Errorf("flagfs: %w", err)
 	}
 	return nil
+}
+
+// mountLines: the lines of a mountinfo text that mention the path
+func mountLines(mountinfo, t string) string {
+	var ls []string
+	for _, l := range strings.Split(mountinfo, "\n") {
+		if strings.Contains(l, strings.SplitN(strings.TrimPrefix(t, "/"), "/", 2)[0]) {
+			f := strings.Fields(l)
+			if len(f) > 5 {
+				ls = append(ls, f[3]+" on "+f[4]+" "+f[5])
+			}
+		}
+	}
+	return strings.Join(ls, " | ")
 }
 
 func c05Run(c *vcore.Ctx) *vcore.Violation {
@@ -64,8 +82,9 @@ func c05Run(c *vcore.Ctx) *vcore.Violation {
 	n := 1 + src.Int(5, "nents")
 	haveProc := false
 	var tmpfsTargets []string
+	var coverDirs []int // indices of read-only directory covers (rebuild shape)
 	for i := 0; i < n; i++ {
-		k := src.Pick("kind", "binddir", "binddir", "bindfile", "tmpfs", "proc", "missing", "nested")
+		k := src.Pick("kind", "binddir", "binddir", "bindfile", "tmpfs", "proc", "missing", "nested", "coverfile", "coverdir")
 		e := c05ent{kind: k, target: fmt.Sprintf("m%d", i), ro: src.Bool(1, 2, "ro")}
 		srcBase := base
 		if src.Bool(1, 3, "flagfs") {
@@ -92,6 +111,37 @@ func c05Run(c *vcore.Ctx) *vcore.Violation {
 			}
 		case "missing":
 			e.source = filepath.Join(base, "does-not-exist")
+		case "coverfile", "coverdir":
+			// a read-only cover over part of a writable directory bind of a host directory
+			var parent *c05ent
+			for j := range ents {
+				if ents[j].kind == "binddir" && !ents[j].ro && !ents[j].flagFS && !strings.Contains(ents[j].target, "/") {
+					parent = &ents[j]
+				}
+			}
+			if parent == nil {
+				e.kind, e.ro = "tmpfs", false
+				tmpfsTargets = append(tmpfsTargets, e.target)
+				break
+			}
+			e.ro, e.flagFS, e.parent = true, false, parent.source
+			if k == "coverdir" {
+				e.kind = "binddir"
+				e.target = parent.target + fmt.Sprintf("/cases%d", i)
+				e.source = filepath.Join(base, fmt.Sprintf("srcc%d-%d", i, src.Int(1000000, "uniq")))
+				os.MkdirAll(e.source, 0777)
+				os.WriteFile(filepath.Join(e.source, "marker"), []byte("m"), 0644)
+				coverDirs = append(coverDirs, len(ents))
+				break
+			}
+			e.target = parent.target + fmt.Sprintf("/answers%d", i)
+			e.source = filepath.Join(base, fmt.Sprintf("srca%d-%d", i, src.Int(1000000, "uniq")))
+			os.WriteFile(e.source, []byte("file"), 0666)
+			if src.Bool(1, 2, "planted_at_cover") {
+				e.planted = "link"
+				os.WriteFile(filepath.Join(parent.source, fmt.Sprintf("decoy%d", i)), []byte("decoy"), 0666)
+				os.Symlink(fmt.Sprintf("decoy%d", i), filepath.Join(parent.source, fmt.Sprintf("answers%d", i)))
+			}
 		case "nested":
 			if len(tmpfsTargets) == 0 {
 				e.kind, e.ro = "tmpfs", false
@@ -126,7 +176,7 @@ func c05Run(c *vcore.Ctx) *vcore.Violation {
 	}
 	for _, e := range ents {
 		switch e.kind {
-		case "binddir", "bindfile", "missing":
+		case "binddir", "bindfile", "missing", "coverfile":
 			mb = mb.WithBind(e.source, e.target, e.ro)
 		case "tmpfs":
 			mb = mb.WithTmpfs(e.target, src.Pick("tmpfsdata", "", "size=1m"))
@@ -153,6 +203,9 @@ func c05Run(c *vcore.Ctx) *vcore.Violation {
 			script = append(script, "statfs", t, "mods", t)
 		case "bindfile":
 			script = append(script, "statfs", t, "sys", "2", "s:"+t, "1", "0", "0", "0", "0")
+		case "coverfile":
+			// remove the name, write a file of one's own there: the name is a read-only mount
+			script = append(script, "sys", "87", "s:"+t, "0", "0", "0", "0", "0", "grow", t, "6")
 		case "proc":
 			script = append(script, "statfs", t, "cat", "/proc/kcore", "cat", "/proc/self/status")
 		}
@@ -218,6 +271,20 @@ func c05Run(c *vcore.Ctx) *vcore.Violation {
 					break
 				}
 			}
+			if len(coverDirs) > 0 && src.Bool(1, 2, "rebuild_from_same_builder") {
+				// one Builder serves several Builds: at the first one the source of a cover is not there yet (the
+				// build fails, or goes on without it), at the second it is - and the environment judged below is
+				// the second one
+				e := ents[coverDirs[0]]
+				c.Event("rebuild")
+				c.Fault("first_build_without_a_source")
+				if os.Rename(e.source, e.source+".away") == nil {
+					if env0, err0 := kBuildRetry(&b); err0 == nil {
+						env0.Destroy()
+					}
+					os.Rename(e.source+".away", e.source)
+				}
+			}
 			env, err := kBuildRetry(&b)
 			if err != nil {
 				res = runner.Result{Status: runner.StatusRunnerError, Error: "container build: " + err.Error()}
@@ -234,6 +301,15 @@ func c05Run(c *vcore.Ctx) *vcore.Violation {
 	if noDevNull && res.Status == runner.StatusRunnerError && strings.HasPrefix(res.Error, "container build:") {
 		// refused (the masks cannot be applied, or the init command cannot get its standard streams): fine
 		c.Probe("build_refused_masks_without_devnull")
+		return nil
+	}
+	anyPlanted := false
+	for _, e := range ents {
+		anyPlanted = anyPlanted || e.planted != ""
+	}
+	if anyPlanted && res.Status == runner.StatusRunnerError {
+		// something that is not a regular file sits at the target of a file mount: refusing the root is fine
+		c.Probe("build_refused_object_at_mount_target")
 		return nil
 	}
 	if res.Status != runner.StatusNormal {
@@ -354,6 +430,31 @@ func c05Run(c *vcore.Ctx) *vcore.Violation {
 			}
 			if !e.ro && r < 0 {
 				return vcore.Violate(prop, "writable_mount_refuses", impl+"/bindfile", "writable file mount %s: open for writing failed with %d", t, r)
+			}
+		case "coverfile":
+			if ri >= len(rets) {
+				return vcore.Violate(prop, "mount_missing", impl+"/coverfile", "no report for %s", t)
+			}
+			r := rets[ri]
+			ri++
+			if r >= 0 {
+				return vcore.Violate(prop, "readonly_mount_writable", impl+"/coverfile", "the name of the read-only file mount %s could be removed from its (writable) directory (unlink returned %d; results %v; %v; mount table of the program: %s)", t, r, rets, out.find("grew "), mountLines(mountinfo, t))
+			}
+			if b, _ := os.ReadFile(e.source); string(b) != "file" {
+				return vcore.Violate(prop, "readonly_mount_writable", impl+"/coverfile", "the source of the read-only file mount %s now holds %q", t, b)
+			}
+			name := filepath.Join(e.parent, filepath.Base(e.target))
+			if e.planted == "link" {
+				fi, err := os.Lstat(name)
+				if err != nil || fi.Mode()&os.ModeSymlink == 0 {
+					return vcore.Violate(prop, "readonly_mount_writable", impl+"/coverfile_planted", "a link sat at the target of the read-only file mount %s; after the run the host directory has %v there (%v): the program replaced the name the mount was declared for", t, fi, err)
+				}
+				if b, _ := os.ReadFile(filepath.Join(e.parent, strings.Replace(filepath.Base(e.target), "answers", "decoy", 1))); string(b) != "decoy" {
+					return vcore.Violate(prop, "host_file_modified", impl+"/coverfile_planted", "the file the planted link leads to now holds %q", b)
+				}
+			} else if b, err := os.ReadFile(name); err != nil || len(b) != 0 {
+				// the mount point made for the file mount: an empty file of the host directory
+				return vcore.Violate(prop, "readonly_mount_writable", impl+"/coverfile", "the host's mount point file for %s now holds %q (%v)", t, b, err)
 			}
 		case "proc":
 			if st := statfs[t]; e.ro && st[1]&1 == 0 {
